@@ -120,4 +120,28 @@ def run_matrix(ctx, want: str):
                         continue
                     if json.loads(json.dumps(back)) != strip_nulls(doc):
                         ctx.violation(f"canonical form {json.dumps(doc)} of field kind {case['kind']} comes back as {json.dumps(back)}", info)
+    if want == "C15":
+        # the DOCUMENT itself in another shape than an object: an array around a valid document, empty arrays, scalars
+        for kind in ("int", "intList", "model", "compound"):
+            clazz = pm.SHAPE_MODELS[kind]
+            valid = {"x": {"int": 5, "intList": [5], "model": {"v": 1}, "compound": [5]}[kind]}
+            for label, doc in (("array-of-one", [valid]), ("array-of-two", [valid, valid]), ("empty-array", []), ("array-of-empty-object", [{}]),
+                               ("nested-array", [[valid]]), ("number", 5), ("string", "s"), ("null", None), ("true", True)):
+                for via in ("dict", "json"):
+                    n += 1
+                    ctx.case(("dict-document-shape", kind, label, via))
+                    with warnings.catch_warnings():
+                        warnings.simplefilter("ignore")
+                        try:
+                            if via == "dict":
+                                out = ("ok", DictDecoder(context=xctx).decode(json.loads(json.dumps(doc)), clazz))
+                            else:
+                                out = ("ok", JsonParser(context=xctx).from_string(json.dumps(doc), clazz))
+                        except Exception as ex:  # noqa: BLE001
+                            out = ("exc", ex)
+                    info = {"kind": kind, "document_shape": label, "document": json.dumps(doc), "via": via}
+                    if out[0] == "ok" and not isinstance(out[1], clazz):
+                        ctx.violation(f"decoder ({via}) returned {type(out[1]).__name__} ({out[1]!r}) for a document of shape {label}, not an instance of the requested class"[:400], info)
+                    elif out[0] == "exc" and not isinstance(out[1], DOCUMENTED):
+                        ctx.violation(f"decoder ({via}) leaked {type(out[1]).__name__}: {out[1]} for a document of shape {label}", info)
     ctx.extra["dict_shape_cases"] = n
